@@ -91,6 +91,7 @@ struct Handler {
 void dsim_scenario() {
     int adapter = dsim::choose(20);
     int nops = 1 + dsim::choose(2);           // consecutive operations on a reused adapter / storage
+    bool rival = dsim::flip();
     int outcome[2], timing[2]; long val[2];
     for (int i = 0; i < nops; i++) { outcome[i] = dsim::choose(3); timing[i] = dsim::choose(3); val[i] = SRC + (dsim::choose(6) == 5 ? 13 : i + 1); }
     dsim::plan_note("adapter=%d ops=%d", adapter, nops);
@@ -107,11 +108,51 @@ void dsim_scenario() {
             case 2: cocls::callback_await_alloc<cocls::reusable_storage, cocls::future<long>>(rstor, cb, [&] { return src.work(); }); src.finish(); break;
             case 3: {   // make_promise on the heap: callback receives the resolved future
                 auto p = cocls::make_promise<long>([i](cocls::future<long> &f) { classify(i, [&] { return f.value(); }); });
+                if (timing[i] == T_THREAD && outcome[i] == O_VALUE && rival) {
+                    // two threads call the one promise at the same time (a promise may be shared like that): the completion runs once, with the accepted call's value
+                    bool a_ok = false, b_ok = false;
+                    src.thr = std::thread([&] { a_ok = p(val[i]); });
+                    b_ok = p(val[i] + 5000);
+                    src.thr.join();
+                    if (a_ok == b_ok) dsim::fail("C18.wrong_outcome", "two concurrent calls of one promise: %d of them were accepted", (int)a_ok + (int)b_ok);
+                    if (b_ok) exp_val = val[i] + 5000;
+                    break;
+                }
+                if (timing[i] == T_THREAD && outcome[i] == O_VALUE && rival) {
+                    // two threads call the one promise at the same time (a promise may be shared like that): the completion runs once, with the accepted call's value
+                    bool a_ok = false, b_ok = false;
+                    src.thr = std::thread([&] { a_ok = p(val[i]); });
+                    b_ok = p(val[i] + 5000);
+                    src.thr.join();
+                    if (a_ok == b_ok) dsim::fail("C18.wrong_outcome", "two concurrent calls of one promise: %d of them were accepted", (int)a_ok + (int)b_ok);
+                    if (b_ok) exp_val = val[i] + 5000;
+                    break;
+                }
                 if (timing[i] == T_THREAD) { src.thr = std::thread([&src, q = std::move(p)]() mutable { src.resolve_now(q); }); } else src.resolve_now(p);
                 if (src.thr.joinable()) src.thr.join();
                 break; }
             case 4: {   // make_promise in a storage
                 auto p = cocls::make_promise<long>([i](cocls::future<long> &f) { classify(i, [&] { return f.value(); }); }, cstor);
+                if (timing[i] == T_THREAD && outcome[i] == O_VALUE && rival) {
+                    // two threads call the one promise at the same time (a promise may be shared like that): the completion runs once, with the accepted call's value
+                    bool a_ok = false, b_ok = false;
+                    src.thr = std::thread([&] { a_ok = p(val[i]); });
+                    b_ok = p(val[i] + 5000);
+                    src.thr.join();
+                    if (a_ok == b_ok) dsim::fail("C18.wrong_outcome", "two concurrent calls of one promise: %d of them were accepted", (int)a_ok + (int)b_ok);
+                    if (b_ok) exp_val = val[i] + 5000;
+                    break;
+                }
+                if (timing[i] == T_THREAD && outcome[i] == O_VALUE && rival) {
+                    // two threads call the one promise at the same time (a promise may be shared like that): the completion runs once, with the accepted call's value
+                    bool a_ok = false, b_ok = false;
+                    src.thr = std::thread([&] { a_ok = p(val[i]); });
+                    b_ok = p(val[i] + 5000);
+                    src.thr.join();
+                    if (a_ok == b_ok) dsim::fail("C18.wrong_outcome", "two concurrent calls of one promise: %d of them were accepted", (int)a_ok + (int)b_ok);
+                    if (b_ok) exp_val = val[i] + 5000;
+                    break;
+                }
                 if (timing[i] == T_THREAD) { src.thr = std::thread([&src, q = std::move(p)]() mutable { src.resolve_now(q); }); } else src.resolve_now(p);
                 if (src.thr.joinable()) src.thr.join();
                 break; }
